@@ -185,7 +185,7 @@ def plan(tier, seed):
     items = [("dsl", lo, min(n, lo + chunk)) for lo in range(0, n, chunk)]
     items += [("lat", ("d1",))] + [("lat", ("d2", i)) for i in range(A.N)] + [("lat", ("wrap1", w)) for w in A.WRAPPERS] + [("lat", ("objcore", t, r)) for t in (0, 1) for r in range(5)]
     if tier == "thorough":
-        items += [("lat", ("wrap2", w, i)) for w in ("properties.a", "items", "anyOf0", "additionalProperties", "dependencies.a", "not") for i in range(A.N)]
+        items += [("lat", ("wrap2", w, i)) for w in ("properties.a", "items", "anyOf0", "additionalProperties") for i in range(A.N)]
         items += [("lat", ("d3g", "object", i)) for i in A.GROUPS["object"]]
     return {"items": items, "meta": {"dsl_trees": n, "dsl_keyword_subsets": 1 if tier == "quick" else 2, "values_dsl": len(VAL.V) + len(VAL.V_OBJ), "exhaustive": True}}
 
@@ -212,7 +212,7 @@ def work(item):
                 f()
             except RuntimeError:
                 continue
-            full = item[1][0] in ("d1", "objcore") or _TIER[0] == "thorough"
+            full = item[1][0] in ("d1", "objcore") or (_TIER[0] == "thorough" and item[1][0] in ("d2", "wrap1"))
             if full:
                 menu = None
             else:
